@@ -142,6 +142,7 @@ def gen_case(idx: int, seed: int, tier: str) -> Any:
     base["tree"] = tree
     base["sched_seed"] = rng.randrange(1 << 30)
     base["td_salt"] = rng.randrange(4)
+    base["root_as_reference"] = rng.random() < 0.3
     return base
 
 
@@ -410,6 +411,15 @@ class Scenario:
 
         case = self.case
         root = self.build()
+        if case.get("root_as_reference"):
+            # the root component named the way configuration files name it: as a `module:attribute` reference
+            import sys
+            import types as _types
+
+            dyn = sys.modules.setdefault("verif_dyn_components", _types.ModuleType("verif_dyn_components"))
+            setattr(dyn, "C15Root", root)
+            root = "verif_dyn_components:C15Root"
+            self.log("root-as-reference", "harness")
         if case["backend"] == "trio":
             vtime._seed_trio(case["sched_seed"], False)
         timeout = 10 if case["ending"]["kind"] == "timeout" else (None if case["ending"]["kind"] == "signal_shielded" else 500)
@@ -507,6 +517,8 @@ def check(sc: Scenario) -> tuple[list[dict[str, Any]], dict[str, int]]:
                                    f"application must keep running until it is told to stop")
     if kind == "service_crash_after" and not any(e["kind"] == "service-crash" for e in ev):
         bad("app-ended-too-early", f"the application ended ({describe_outcome(o)}) before its service task crashed")
+    if any(e["kind"] == "root-as-reference" for e in ev):
+        c["applications_whose_root_component_was_named_by_a_reference_string"] = 1
     if any(e["kind"] == "ct-no-yield" for e in ev):
         c["ctxteardown_starts_that_returned_before_their_yield"] = sum(1 for e in ev if e["kind"] == "ct-no-yield")
     if any(e["kind"] == "foreign-run-defined" for e in ev):
